@@ -116,6 +116,19 @@ class C04(Property):
         for _ in range(2000 if deep else 300):
             n = self.boundary_len(rng)
             yield {"f": "string", "a": self.rand_loc(rng, n, rng.random() < 0.5), "op": rng.choice(["join", "join", "order"])}
+        # connect on a ring at the half-record boundary: two short spans whose direct gap is just below, at and just
+        # above half the record, for every residue of the record length mod 4 (rounding of the half)
+        for _ in range(1500 if deep else 250):
+            n = rng.choice([rng.randrange(8, 60), rng.randrange(60, 3000)])
+            la, lb = rng.choice([1, 1, 2, 5]), rng.choice([1, 1, 3])
+            gap = n // 2 + rng.choice([-2, -1, 0, 1, 2])
+            if la + gap + lb > n or gap < 0:
+                continue
+            shift = rng.randrange(0, n - (la + gap + lb) + 1)
+            first = {"c": False, "parts": [[shift, shift + la, rng.choice([1, -1])]]}
+            second = {"c": False, "parts": [[shift + la + gap, shift + la + gap + lb, rng.choice([1, -1])]]}
+            ls = [first, second] if rng.random() < 0.5 else [second, first]
+            yield {"f": "connect", "ls": ls, "wrap": n}
         # textual form with fuzzy positions: every class at a start and at an end (also the unusual way round)
         for _ in range(2000 if deep else 400):
             n = self.boundary_len(rng)
